@@ -1,6 +1,7 @@
 package concd
 
 import (
+	"fmt"
 	"math/rand"
 	"sort"
 	"sync/atomic"
@@ -11,17 +12,51 @@ import (
 	"verif/harness/vt"
 )
 
-// span is a Mapper whose Operation reports the bounds it was given.
-type span struct{ lo, hi int }
+// span is a Mapper whose Operation reports the bounds it was given. Slice calls are counted: a Map that
+// keeps slicing (more calls than any partition needs) is parked so that a runaway cannot eat the memory.
+type span struct {
+	lo, hi int
+	calls  *int64
+	limit  int64
+}
 
-func (s span) Operation() (interface{}, error)  { return [2]int{s.lo, s.hi}, nil }
-func (s span) Slice(i, j int) concurrent.Mapper { return span{s.lo + i, s.lo + j} }
-func (s span) Len() int                         { return s.hi - s.lo }
+func (s span) Operation() (interface{}, error) { return [2]int{s.lo, s.hi}, nil }
+func (s span) Slice(i, j int) concurrent.Mapper {
+	if atomic.AddInt64(s.calls, 1) > s.limit {
+		select {} // runaway: park for ever, the watchdog reports it
+	}
+	return span{s.lo + i, s.lo + j, s.calls, s.limit}
+}
+func (s span) Len() int { return s.hi - s.lo }
 
 // MapCalls logs calls of concurrent.Map over spans.
 func MapCalls(w *vt.W, rng *rand.Rand, nrandom int, exhaustive bool) {
+	hung := false
 	one := func(n, threads, maxChunk int) {
-		res, err := concurrent.Map(span{0, n}, threads, maxChunk)
+		if hung {
+			return
+		}
+		var calls int64
+		type ret struct {
+			res []interface{}
+			err error
+		}
+		ch := make(chan ret, 1)
+		go func() {
+			r, e := concurrent.Map(span{0, n, &calls, int64(10*n + 10)}, threads, maxChunk)
+			ch <- ret{r, e}
+		}()
+		var res []interface{}
+		var err error
+		select {
+		case r := <-ch:
+			res, err = r.res, r.err
+		case <-time.After(30 * time.Second):
+			hung = true
+			w.Emit(vt.Ev{"op": "map", "n": n, "threads": threads, "maxchunk": maxChunk,
+				"err": fmt.Sprintf("Map did not return within 30 s (%d Slice calls)", atomic.LoadInt64(&calls)), "results": 0, "chunks": [][2]int{}})
+			return
+		}
 		chunks := [][2]int{}
 		for _, r := range res {
 			if c, ok := r.([2]int); ok {
